@@ -94,3 +94,91 @@ Definition check_dim_change (e : src * name * option (list csys) * list name * o
         | _ => false
         end
   end.
+
+(* ---- C14: momentum names are synonyms ---- *)
+Definition syn_pairs : list (name * name) :=
+  [(N_px, N_x); (N_py, N_y); (N_pt, N_rho); (N_pt2, N_rho2); (N_pz, N_z); (N_p, N_mag); (N_p2, N_mag2); (N_pseudorapidity, N_eta);
+   (N_E, N_t); (N_e, N_t); (N_energy, N_t); (N_E2, N_t2); (N_e2, N_t2); (N_energy2, N_t2);
+   (N_M, N_tau); (N_m, N_tau); (N_mass, N_tau); (N_M2, N_tau2); (N_m2, N_tau2); (N_mass2, N_tau2);
+   (N_et, N_Et); (N_transverse_energy, N_Et); (N_et2, N_Et2); (N_transverse_energy2, N_Et2);
+   (N_mt, N_Mt); (N_transverse_mass, N_Mt); (N_mt2, N_Mt2); (N_transverse_mass2, N_Mt2)].
+Definition conv_syn : list (name * name) :=
+  [(N_to_pxpy, N_to_xy); (N_to_ptphi, N_to_rhophi); (N_to_pxpypz, N_to_xyz); (N_to_pxpytheta, N_to_xytheta); (N_to_pxpyeta, N_to_xyeta);
+   (N_to_ptphipz, N_to_rhophiz); (N_to_ptphitheta, N_to_rhophitheta); (N_to_ptphieta, N_to_rhophieta);
+   (N_to_pxpypzenergy, N_to_xyzt); (N_to_pxpythetaenergy, N_to_xythetat); (N_to_pxpyetaenergy, N_to_xyetat);
+   (N_to_pxpypzmass, N_to_xyztau); (N_to_pxpythetamass, N_to_xythetatau); (N_to_pxpyetamass, N_to_xyetatau);
+   (N_to_ptphipzenergy, N_to_rhophizt); (N_to_ptphithetaenergy, N_to_rhophithetat); (N_to_ptphietaenergy, N_to_rhophietat);
+   (N_to_ptphipzmass, N_to_rhophiztau); (N_to_ptphithetamass, N_to_rhophithetatau); (N_to_ptphietamass, N_to_rhophietatau)].
+Definition kw_geo (k : name) : name :=
+  if Pos.eqb k N_pz then N_z else if Pos.eqb k N_energy then N_t else if Pos.eqb k N_mass then N_tau else k.
+Fixpoint assoc (k : name) (l : list (name * name)) : option name :=
+  match l with [] => None | (a, b) :: r => if Pos.eqb k a then Some b else assoc k r end.
+(* rename keyword variables inside an outcome: the value passed as pz= is "the same value" as the one passed as z= *)
+Fixpoint rename_kw (e : oexpr) : oexpr :=
+  match e with
+  | OKw k => OKw (kw_geo k)
+  | OCall f xs => OCall f (map rename_kw xs)
+  | OOp f xs => OOp f (map rename_kw xs)
+  | OProj i x => OProj i (rename_kw x)
+  | _ => e end.
+Definition rename_out (o : outcome) : outcome :=
+  match o with OutVec c s xs b => OutVec c s (map rename_kw xs) b | OutScalar e => OutScalar (rename_kw e) | _ => o end.
+
+Fixpoint lookup_out (tab : list (src * name * outcome)) (s : src) (n : name) : option outcome :=
+  match tab with [] => None | (s', n', o) :: r => if src_eqb s s' && Pos.eqb n n' then Some o else lookup_out r s n end.
+Definition opt_outcome_eqb (a b : option outcome) : bool :=
+  match a, b with Some x, Some y => outcome_eqb x y | _, _ => false end.
+
+(* on momentum vectors every synonym getter is the very expression of the geometric getter;
+   on generic vectors the synonyms do not exist *)
+Definition check_getter_synonym (e : src * name * outcome) : bool :=
+  let '(s, n, o) := e in
+  match assoc n syn_pairs with
+  | None => true
+  | Some g => if s_mom s then opt_outcome_eqb (Some o) (lookup_out getters_tab s g)
+              else (is_raise o N_AttributeError || opt_outcome_eqb (Some o) (lookup_out getters_tab s g))
+  end.
+
+Fixpoint lookup_conv (tab : list (src * name * option (list csys) * list name * outcome)) (s : src) (m : name) (kws : list name) : option outcome :=
+  match tab with
+  | [] => None
+  | (s', m', _, kws', o) :: r => if src_eqb s s' && Pos.eqb m m' && list_eqb Pos.eqb kws kws' then Some o else lookup_conv r s m kws
+  end.
+Definition check_conv_synonym (e : src * name * option (list csys) * list name * outcome) : bool :=
+  let '(s, m, _, kws, o) := e in
+  match assoc m conv_syn with
+  | None => true
+  | Some g => opt_outcome_eqb (Some (rename_out o)) (lookup_conv conv_tab s g (map kw_geo kws))
+  end.
+
+(* setters through a synonym produce the same stored state as the geometric setter *)
+Definition set_syn : list (name * name) :=
+  [(N_px, N_x); (N_py, N_y); (N_pt, N_rho); (N_pz, N_z); (N_E, N_t); (N_e, N_t); (N_energy, N_t); (N_M, N_tau); (N_m, N_tau); (N_mass, N_tau)].
+Definition check_setter_synonym (e : src * name * outcome) : bool :=
+  let '(s, n, o) := e in
+  match assoc n set_syn with
+  | None => true
+  | Some g => if s_mom s then opt_outcome_eqb (Some o) (lookup_out setters_tab s g) else true
+  end.
+
+(* the flavor never changes a number: the momentum source gives the same expressions as the generic one, class flavor aside *)
+Definition unflavor (c : ocls) : ocls := match c with MO2 => VO2 | MO3 => VO3 | MO4 => VO4 | x => x end.
+Definition strip (o : outcome) : outcome := match o with OutVec c s xs b => OutVec (unflavor c) s xs b | x => x end.
+Definition mom_of (s : src) : src := {| s_dim := s_dim s; s_sys := s_sys s; s_mom := true |}.
+Definition check_flavor_getter (e : src * name * outcome) : bool :=
+  let '(s, n, o) := e in
+  if s_mom s then true else
+    match o with
+    | OutRaise _ => true
+    | _ => match lookup_out getters_tab (mom_of s) n with Some o' => outcome_eqb (strip o) (strip o') | None => false end
+    end.
+Definition check_flavor_unary (e : src * name * outcome) : bool :=
+  let '(s, n, o) := e in
+  if s_mom s then true else
+    match lookup_out unary_tab (mom_of s) n with
+    | Some o' => outcome_eqb (strip o) (strip o') && (match o, o' with OutVec c _ _ _, OutVec c' _ _ _ => negb (cls_mom c) && cls_mom c' | _, _ => true end)
+    | None => false end.
+Definition check_flavor_conv (e : src * name * option (list csys) * list name * outcome) : bool :=
+  let '(s, m, _, kws, o) := e in
+  if s_mom s then true else
+    match lookup_conv conv_tab (mom_of s) m kws with Some o' => outcome_eqb (strip o) (strip o') | None => false end.
